@@ -15,6 +15,8 @@ lists, per function.parameter:from->to, the representations that are rejected th
   * key unknown to the baseline -> counted in coverage bin forms.unknown, no verdict.
 A third kind of twin needs no baseline: the *identical* call made a second time (same argument objects, same RNG state) must
 return the same values (monitor forms.repeat) — state left behind by the first call, or an argument it modified, shows here.
+A fourth repeats the call under different numpy print options and floating-point error state (monitor forms.ambient): a
+result may depend on its arguments, gv and the numpy RNG only.
 The canonical call is always the workload's own call, through the property's monitors; the twin goes through them too
 (all-keyword twins go to the undecorated function, because the monitors' wrappers call it positionally).
 """
@@ -200,8 +202,10 @@ def make_layer(ctx, qual, period=PERIOD):
                     flatkw[name] = v
             allkw = ("*", "positional->keyword", ("allkw",)) if kw_ok and (real_varkw or set(flatkw) <= real_names) and len(a) > 0 else None
             repeat = ("*", "first call->identical second call", ("repeat",))
-            u = int(rng.integers(4))
-            if u == 0 or (not cands and allkw is None):
+            u = int(rng.integers(5))
+            if u == 4:
+                pname, lab, spec = ("*", "default numpy print/err state->other print/err state", ("ambient",))
+            elif u == 0 or (not cands and allkw is None):
                 pname, lab, spec = repeat
             elif (u == 1 and allkw is not None) or not cands:
                 pname, lab, spec = allkw
@@ -218,6 +222,13 @@ def make_layer(ctx, qual, period=PERIOD):
                         _depth[0] += 1
                         try:
                             with core.quiet():
+                                r2 = orig(*a, **k)
+                        finally:
+                            _depth[0] -= 1
+                    elif spec[0] == "ambient":
+                        _depth[0] += 1
+                        try:
+                            with core.quiet(), np.printoptions(precision=2, threshold=4, edgeitems=1, suppress=True, linewidth=30, floatmode="fixed"), np.errstate(all="ignore"):
                                 r2 = orig(*a, **k)
                         finally:
                             _depth[0] -= 1
@@ -241,9 +252,9 @@ def make_layer(ctx, qual, period=PERIOD):
                     raise
                 except (TypeError, ValueError, AttributeError, IndexError, OverflowError) as e:
                     outcome = f"raises:{type(e).__name__}"
-                    if spec[0] == "repeat":
+                    if spec[0] in ("repeat", "ambient"):
                         with core.monitor_scope():
-                            ctx.check("forms.repeat", False, f"{qual}: the identical call repeated (same objects, same numpy RNG state) raises {type(e).__name__}: {str(e)[:160]} although the first call returned", key=key)
+                            ctx.check("forms.repeat" if spec[0] == "repeat" else "forms.ambient", False, f"{qual}: the identical call repeated (same objects, same numpy RNG state) raises {type(e).__name__}: {str(e)[:160]} although the first call returned", key=key)
                         return r
                     if "RV_FORMS_RECORD" in os.environ:
                         _record.setdefault(key, {}).setdefault(outcome, 0)
@@ -264,6 +275,10 @@ def make_layer(ctx, qual, period=PERIOD):
                         _record.setdefault(key, {}).setdefault("ok", 0)
                         _record[key]["ok"] += 1
                     ok, why = same(r2, r)
+                    if spec[0] == "ambient":
+                        ctx.check("forms.ambient", ok, f"{qual}: result depends on numpy's print options / floating-point error state (neither is an argument, gv or the RNG): {why}", key=key)
+                        ctx.bin("forms.key", key)
+                        return r
                     if spec[0] == "repeat":
                         ctx.check("forms.repeat", ok, f"{qual}: the identical call repeated (same objects, same numpy RNG state) gives a different result: {why}", key=key)
                         ctx.bin("forms.key", key)
